@@ -22,7 +22,9 @@ import (
 // stricter than the bounds requirement (`<` for `<=`, `+1` too many) makes them
 // unsatisfiable. The rule says nothing about guards that are too weak (C07).
 
-var exactFitFloors = map[string]int{"C03": 9, "C06": 8, "C08": 5, "C09": 2, "C14": 3}
+// no floors: the number of computed-bound reads is a property of the code's
+// spelling, not of the protocol; positive examples live in the self-test
+var exactFitFloors = map[string]int{}
 
 func init() {
 	for id, pk := range widenScopes {
